@@ -6,6 +6,7 @@ from storemodel import StoreModel
 import c13
 import c15
 
+WITNESSES = ['W1SoftDeletePrivate', 'W2EntryUpdatePrivate', 'W3GetRefShared', 'W5InternalsUnreachable']
 LEVEL = "other"
 EXPLANATION = ("Necessary structure of 'reads return only the current value of the key': every public read variant "
                "reaches the value store only through lookup functions that perform exactly one lookup per call, "
